@@ -263,8 +263,8 @@ def lay310(ctx: Ctx) -> None:
     read = _attr_reads(mod.tree, frame_vars | {"self"})
     notes: List[str] = []
     tb = None
-    for n in ast.walk(fn):
-        if isinstance(n, ast.ClassDef) and n.name == "PyTryBlock":
+    for n in list(ast.walk(fn)) + list(mod.tree.body):        # nested in inspect_frame, or moved to module level
+        if isinstance(n, ast.ClassDef) and n.name == "PyTryBlock" and tb is None:
             tb = n
     if tb is None:
         raise AnalysisError("LAY-310: nested class PyTryBlock vanished")
